@@ -66,7 +66,10 @@ def run_item(item):
         lines = []
         for _ in range(rng.randint(2, 8)):
             t = ' '.join(gen.rand_text(rng, 40, allow_empty=False, tabs_ok=False) for _ in range(rng.randint(1, 4)))
-            lines.append(balanced_escapes(rng, 'x' + t))
+            l = balanced_escapes(rng, 'x' + t)
+            if rng.random() < 0.2:
+                l = l + E + '[36m tail\r' + E + '[m'       # (CR before the closing sequence, as for a CRLF file)
+            lines.append(l)
         case = dict(case)
         case['kind'] = 'text-with-escapes'
         case['view'] = 'passthrough'
@@ -77,6 +80,19 @@ def run_item(item):
     if case['kind'] in ('diff', 'log') and rng.random() < 0.3:
         lines = corpus.git_colorize(lines, rng.choice(['default', 'ws']))
         colored = True
+        if rng.random() < 0.35:
+            # a file with CRLF line endings: git puts the closing sequences after the CR (ESC[31m-old CR ESC[m)
+            lines = [(l[:-3] + '\r' + l[-3:]) if l.endswith(E + '[m') else l + '\r' for l in lines]
+            case = dict(case)
+            case['meta'] = dict(case['meta'])
+            case['meta']['classes'] = list(case['meta']['classes']) + ['crlf-colored']
+            if rng.random() < 0.4:
+                # git log --graph -p: every line behind a graph prefix is passed through as it is
+                lines = ['| ' + l for l in lines]
+                case['meta']['classes'].append('graph-prefix')
+            if rng.random() < 0.3:
+                opts['--hunk-header-style'] = 'raw'
+                opts['--hunk-header-decoration-style'] = 'none'
     hyper = rng.random() < 0.4
     if hyper:
         opts['--hyperlinks'] = True
